@@ -14,6 +14,10 @@ theorem mau_fresh_id {f : Fixes} {x y : Index} (hy : maybeApplyUpdates f x = som
 def CovOK (idx : Index) (q : EQ) : Prop :=
   ∀ c, q.covering = some c → idx.status = .fresh ∧ c = idx.cells
 
+/-- the cached edge count, if any, is `NumEdgesUpTo(limit)` of the current shapes -/
+def NumOK (idx : Index) (q : EQ) : Prop :=
+  (q.numEdgesLimit = 0 ∧ q.numEdges = 0) ∨ q.numEdges = numEdgesUpTo idx.shapes q.numEdgesLimit 0
+
 def ansOf (shapes : List Shape) (o : Opts) (rep : Report) : EQAns :=
   if o.distanceLimit == Lim.zero then ⟨rep, none, [], o.maxResults, o.distanceLimit, o.maxError⟩
   else ⟨rep, if o.includeInteriors then some (liveIds shapes) else none, liveIds shapes,
@@ -33,6 +37,7 @@ structure FecPost (idx : Index) (q : EQ) (o : Opts) (rep : Report) (idx' : Index
   opts : q'.opts = q.opts
   user : q'.user = q.user
   keep : idx.status = .fresh → idx' = idx
+  num : NumOK idx q → NumOK idx' q'
 
 theorem fec_some {f : Fixes} {idx idx' : Index} {q q' : EQ} {thr : Nat} {o : Opts} {rep : Report} {a : EQAns}
     (hi : IdxOK idx) (hc : CovOK idx q)
@@ -42,7 +47,7 @@ theorem fec_some {f : Fixes} {idx idx' : Index} {q q' : EQ} {thr : Nat} {o : Opt
   · simp only [hz, if_true] at h
     injection h with h; injection h with h1 h2; injection h2 with h2 h3
     subst h1 h2 h3
-    exact ⟨by simp [ansOf, hz], hi, rfl, hc, rfl, rfl, fun _ => rfl⟩
+    exact ⟨by simp [ansOf, hz], hi, rfl, hc, rfl, rfl, fun _ => rfl, fun h => h⟩
   · simp only [hz] at h
     -- first stage: interiors
     have stage : ∃ i ints, IdxOK i ∧ i.shapes = idx.shapes ∧ (idx.status = .fresh → i = idx) ∧
@@ -72,12 +77,20 @@ theorem fec_some {f : Fixes} {idx idx' : Index} {q q' : EQ} {thr : Nat} {o : Opt
     have hq2o : q2.opts = q.opts := by subst hq2; split <;> rfl
     have hq2u : q2.user = q.user := by subst hq2; split <;> rfl
     have hc2 : CovOK i q2 := by intro c hcq; rw [hq2c] at hcq; exact hci c hcq
+    have hq2n : NumOK idx q → NumOK i q2 := by
+      intro hn
+      subst hq2
+      unfold NumOK at hn ⊢
+      rw [hish]
+      split
+      · right; rfl
+      · exact hn
     simp only [Bool.false_eq_true, if_false] at h
     split at h
     · -- brute force
       injection h with h; injection h with h1 h2; injection h2 with h2 h3
       subst h1 h2 h3
-      exact ⟨by simp [ansOf, hz, hints, hish], hiok, hish, hc2, hq2o, hq2u, hikeep⟩
+      exact ⟨by simp [ansOf, hz, hints, hish], hiok, hish, hc2, hq2o, hq2u, hikeep, hq2n⟩
     · -- optimized
       split at h
       · rename_i c hcov
@@ -85,7 +98,7 @@ theorem fec_some {f : Fixes} {idx idx' : Index} {q q' : EQ} {thr : Nat} {o : Opt
         subst h1 h2 h3
         obtain ⟨hf, hcc⟩ := hc2 c hcov
         have : c = liveIds idx.shapes := by rw [hcc, fresh_cells hiok hf, hish]
-        exact ⟨by simp [ansOf, hz, hints, this], hiok, hish, hc2, hq2o, hq2u, hikeep⟩
+        exact ⟨by simp [ansOf, hz, hints, this], hiok, hish, hc2, hq2o, hq2u, hikeep, hq2n⟩
       · rename_i hcov
         cases hm : maybeApplyUpdates f i with
         | none => simp [hm] at h
@@ -94,9 +107,13 @@ theorem fec_some {f : Fixes} {idx idx' : Index} {q q' : EQ} {thr : Nat} {o : Opt
           injection h with h; injection h with h1 h2; injection h2 with h2 h3
           subst h1 h2 h3
           obtain ⟨g1, g2, _, g4, g5⟩ := mau_some hiok hm
-          refine ⟨by simp [ansOf, hz, hints, g5, hish], g1, by rw [g2, hish], ?_, hq2o, hq2u, ?_⟩
+          refine ⟨by simp [ansOf, hz, hints, g5, hish], g1, by rw [g2, hish], ?_, hq2o, hq2u, ?_, ?_⟩
           · intro c hc'; simp at hc'; exact ⟨g4, hc'.symm⟩
           · intro hf; rw [mau_fresh_id hm (by rw [hikeep hf]; exact hf), hikeep hf]
+          · intro hn
+            have := hq2n hn
+            unfold NumOK at this ⊢
+            rw [g2]; exact this
 
 /-- with the D4 repair, or on an index that is fresh / before its first update, the search never blocks -/
 theorem fec_isSome {f : Fixes} (idx : Index) (q : EQ) (thr : Nat) (o : Opts) (rep : Report)
